@@ -3185,9 +3185,14 @@ class Engine(
             :meth:`.ConnectionEvents.engine_disposed`
 
         """
-        if close:
-            self.pool.dispose()
-        self.pool = self.pool.recreate()
+        try:
+            if close:
+                self.pool.dispose()
+        finally:
+            # replace the pool also when closing its connections was
+            # interrupted (e.g. task cancellation); the partially disposed
+            # pool has lost the slots of the connections it already removed
+            self.pool = self.pool.recreate()
         self.dispatch.engine_disposed(self)
 
     @contextlib.contextmanager
